@@ -157,6 +157,22 @@ def run(ctx):
             hs = ctx.find_calls(f, r"Accumulator::handle")
             rets = ctx.ret_exprs(f)
             ctx.ob("C02.P.options-walk", f.key, "handle per item, finish_with(self) at the end", len(fw) == 1 and len(hs) >= 1 and len(rets) == 1 and "finish_with" in rets[0][1], "%d handle, %d finish_with, returns %s" % (len(hs), len(fw), [e[:60] for _, e in rets]))
+    # maps: a key is remembered on every path after a successful key conversion (shared with C14)
+    from .C14 import MAPS, FM as _FM
+    for ty, key, kind in MAPS:
+        f = ctx.fn("<%s as %s>::from_list" % (ty, _FM))
+        if not f:
+            continue
+        seen_ins = ctx.find_calls(f, r"HashSet::<.*>::insert$")
+        contains = ctx.find_calls(f, r"HashSet::<.*>::contains")
+        nexts = [b2 for b2, t2 in ctx.find_calls(f, r"Iterator>::next$")]
+        fw = ctx.find_calls(f, r"Accumulator::finish_with$")
+        ok = len(seen_ins) == 1 and len(contains) == 1
+        if ok:
+            reach = f.reachable(contains[0][0], False, avoid={seen_ins[0][0]})
+            ok = not any(n in reach for n in nexts) and not any(b2 in reach for b2, _ in fw)
+        ctx.ob("C02.P.map-key-remembered", f.key, "seen-set separate from the result map, updated on every path", ok,
+               "a repeated key must be reported even when its earlier occurrence had a rejected value: the key has to be recorded in a seen-set on every path, not only when the value was inserted")
     # bundling keeps the vector
     f = ctx.fn("darling_core::error::Error::multiple")
     if f:
